@@ -33,7 +33,7 @@ Proof.
   intros Hs. constructor; cbn [spec_epc be_current_epoch be_active_count be_proposer be_eff_balances
     be_total_active_stake be_total_active_stake_sqrt be_sync_indices be_sync_pubkeys be_pubkey_index be_pubkey_of];
     try reflexivity.
-  - intros i v Hv _. unfold nthN in *. rewrite nth_error_map, Hv. reflexivity.
+  - intros i v Hv _. rewrite ?nthN_eq in *. rewrite nth_error_map, Hv. reflexivity.
   - destruct (all_some _); [reflexivity|contradiction].
 Qed.
 
